@@ -126,7 +126,12 @@ def case(item):
 def identity_cross(n):
     """a == b <=> same abstract state, over one representative per state (all pairs)."""
     data = oracle.make_data(n, grid=3, outlier_prob=0.2)
-    states = oracle.all_states(n, outliers=True)
+    # trees over every SUBSET of the data points too (partial trees, as SMC particles hold them):
+    # same clades but different outliers is only possible across different data subsets
+    states = []
+    for r in range(n + 1):
+        for sub in itertools.combinations(range(n), r):
+            states.extend(oracle.all_states(len(sub), outliers=True, idxs=sub))
     trees = [oracle.build(s, data) for s in states]
     alt = [oracle.build(s, data, reverse_siblings=True) for s in states]
     for t in alt:
@@ -136,8 +141,9 @@ def identity_cross(n):
     for i in range(len(states)):
         for j in range(i, len(states)):
             eq = trees[i] == alt[j]
+            eq2 = alt[j] == trees[i]
             pairs += 1
-            if eq != (i == j):
+            if eq != (i == j) or eq2 != (i == j):
                 probs.append(("equal" if eq else "unequal", oracle.fmt_state(states[i]), oracle.fmt_state(states[j])))
                 if len(probs) > 3:
                     return probs, pairs
@@ -183,7 +189,7 @@ def main(tier, seed):
                           {"tree": oracle.fmt_state(s), "data": kind, "outlier_prior": opm, "problem": pr}, {"item": list(r["item"])})
         if len(chk.samples) < 3 and n == 3 and len(s[0]) == 3:
             chk.sample({"tree": oracle.fmt_state(s), "data": kind, "outlier_prior": opm, "density_evaluations": r["evals"]})
-    for n in (2, 3, 4):
+    for n in ((2, 3) if tier == "quick" else (2, 3, 4)):
         probs, pairs = identity_cross(n)
         chk.evaluations += pairs
         chk.bump("tree_pairs_compared", pairs)
